@@ -120,12 +120,8 @@ Definition expand_partial_eq (F : features) (traits : list trait) (d : dinput) (
   | DUnion fs =>
       let* ta := build_tattr true true false m in
       if negb (ta_unsafe ta) then
-        (* partial_eq/panic.rs: string surgery on the attribute's text *)
-        match m with
-        | MPath _ => Err E_union_without_unsafe
-        | MList _ _ [] => Err E_union_without_unsafe
-        | _ => Panic "partial_eq/panic.rs:union_without_unsafe:unreachable"
-        end
+        (* partial_eq/panic.rs union_without_unsafe: the same error for every form of the attribute *)
+        Err E_union_without_unsafe
       else
         let* _ := mapM (fun f => peq_field_attr F traits false false (f_attrs f)) fs in
         let it := {| i_attrs := []; i_generics := d_generics d;
